@@ -42,6 +42,7 @@ type Profile struct {
 	AimPct         int  // chance per block that the block time is aimed at a pending maturity / jail expiry (+-1 s)
 	SecondDenom    bool // some genesis accounts also hold a second denomination ("abc"); fees may be offered in it
 	Whale          bool // one account holds ~2^90 tokens and stakes amounts whose power does not fit an int64
+	ForeignKeyAccount bool // genesis holds an account whose recorded public key belongs to somebody else's address
 	SubSecond      bool // block times carry nanoseconds (Tendermint's do); jail expiries, maturities and evidence ages are hit to the nanosecond
 	MinStakeRaises bool // governance may raise pos/StakeMinimum in mid-history
 	NoDAOOwner     bool // genesis leaves the DAO owner empty (the shipped default): nobody may spend DAO funds
@@ -73,6 +74,11 @@ func SmallWindowPos(r *Rand) posTypes.Params {
 	return p
 }
 
+type ExtendedAddr struct {
+	Owner *Actor
+	Addr  sdk.Address
+}
+
 type World struct {
 	R     *Rand
 	Env   *Env
@@ -101,6 +107,9 @@ type World struct {
 	Forced       []func() *TxSpec    // transactions delivered first in the next block
 	ForcedLabel  []string
 	WhaleActor  *Actor
+	Extended    []ExtendedAddr // accounts living at an actor's address plus extra bytes (funded by sends to such addresses)
+	ForeignAcct sdk.Address    // genesis account whose recorded public key is ForeignKey's (it does not hash to the address)
+	ForeignKey  *Actor
 	forceUnjail []string // validators whose jail expiry the block time was aimed at: they try to unjail in this block
 }
 
@@ -175,6 +184,12 @@ func NewWorld(seed uint64, p Profile, idx *TxIndex) *World {
 			ga.Extra = 1000000
 		}
 		g.Accounts = append(g.Accounts, ga)
+	}
+	if p.ForeignKeyAccount && len(w.Eds) > 3 {
+		// a funded account at an address nobody holds a key for, with the attacker's public key recorded in it
+		w.ForeignKey = w.Eds[3]
+		w.ForeignAcct = sdk.Address(r.Bytes(24)[:20])
+		g.Accounts = append(g.Accounts, GenAccount{Actor: &Actor{Name: "foreign", Addr: w.ForeignAcct, Pub: w.ForeignKey.Pub}, Balance: 500000000})
 	}
 	for i := 0; i < p.GenesisVals && i < len(w.Eds)-2; i++ {
 		st := min + 1 + r.Int63n(40*min)
@@ -472,6 +487,16 @@ func (w *World) extActions() (begin, end []ExtAction) {
 			end = append(end, ExtAction{Kind: "burn", Phase: "end", Addr: ad, Severity: sev})
 			if w.R.Chance(25) {
 				end = append(end, ExtAction{Kind: "burn", Phase: "end", Addr: ad, Severity: "0.02"})
+			}
+			if w.R.Chance(40) {
+				// several validators burned in the same block
+				for k := 0; k < 1+w.R.Intn(3); k++ {
+					b := valAddrs[w.R.Intn(len(valAddrs))]
+					if b != a && b != w.Anchor.AddrHex() && v.Vals[b].Status != 0 && !w.Reserved[b] {
+						bd, _ := hex.DecodeString(b)
+						end = append(end, ExtAction{Kind: "burn", Phase: "end", Addr: bd, Severity: []string{"0.01", "0.1", "0.5", "0.000000000000000001"}[w.R.Intn(4)]})
+					}
+				}
 			}
 		}
 	}
